@@ -101,5 +101,14 @@ func rayIntersectsSegment(p, a, b Point) bool {
 			return true
 		}
 	}
-	return (p.Y-a.Y)/(p.X-a.X) >= (b.Y-a.Y)/(b.X-a.X)
+	// A difference of zero must be +0: with a coordinate of negative zero it
+	// comes out as -0, and dividing by it gives a slope of -Inf instead of +Inf.
+	dxp, dxb := p.X-a.X, b.X-a.X
+	if dxp == 0 {
+		dxp = 0
+	}
+	if dxb == 0 {
+		dxb = 0
+	}
+	return (p.Y-a.Y)/dxp >= (b.Y-a.Y)/dxb
 }
